@@ -347,10 +347,14 @@ def run(ctx):
                         form_ok = p is not None and len(p) == 1 and list(p.values()) == [1.0] and len(list(p)[0]) == 2
                         if first and form_ok:
                             term_sign['true' if first[-1]['truth'] else 'false'] = 1.0 if u[1] == 'Add' else -1.0
-        ctx.verdict(term_sign == {'true': 1.0, 'false': -1.0}, rule, rule + ':terminal-contribution', 'a terminal contributes +payoff*reach to player one\'s continuation value and -payoff*reach to player two\'s', g.where(0), 'signs: %s' % term_sign,
+        no_stack = popped is None and not term_sign
+        if no_stack:
+            ctx.anchor_lost(rule, 'next_infoset_search: terminal contribution of the stack-driven search', 'no work stack is popped in this function (another traversal style)')
+        else:
+          ctx.verdict(term_sign == {'true': 1.0, 'false': -1.0}, rule, rule + ':terminal-contribution', 'a terminal contributes +payoff*reach to player one\'s continuation value and -payoff*reach to player two\'s', g.where(0), 'signs: %s' % term_sign,
                     breaks='best-response values are those of the wrong player')
         agree = bool(sign_in_slot) and all(term_sign.get(inst) == -s for inst, s in sign_in_slot.values())
-        if not sign_in_slot and f is None:
+        if (not sign_in_slot and f is None) or no_stack:
             ctx.anchor_lost(rule, 'regret(): slots to compare the searches with')
         else:
           ctx.verdict(agree and len(sign_in_slot) == 2, rule, rule + ':slot-vs-search', 'in each slot the sign of `expected` is opposite to the sign of terminal payoffs in that player\'s search (both values are in the same player\'s units)', g.where(0),
@@ -366,7 +370,10 @@ def run(ctx):
                         if u[0] == 'bin' and u[1] == 'Add' and norm(u[2]) == ('var', l, h.local_name(l)) and any(c['kind'] == 'variant' and c['variants'] == ['Terminal'] for c in h.conds(d[1])):
                             p = e4.try_poly(u[3])
                             ok = p is not None and len(p) == 1 and list(p.values()) == [1.0] and len(list(p)[0]) == 2
-        ctx.verdict(ok, rule, rule + ':expected-accumulates', 'expected() accumulates +reach * payoff at terminals', h.where(0), 'found: %s' % ok)
+        if not ok and pop_item(h) is None:
+            ctx.anchor_lost(rule, 'expected(): accumulation at terminals of the stack-driven walk', 'no work stack is popped in this function')
+        else:
+          ctx.verdict(ok, rule, rule + ':expected-accumulates', 'expected() accumulates +reach * payoff at terminals', h.where(0), 'found: %s' % ok)
 
     # ---------------- (3)(4)(5) traversals
     n_push = 0
@@ -593,7 +600,10 @@ def run(ctx):
                                 cxs = g.contexts(d[1], role_ctx_for(g))
                                 roles = roles_of(cxs)
                                 ok = bool(mu) and bool(own) and len(atoms) == 2 and roles == {True}
-        ctx.verdict(ok, 'C01.infoset-value', 'C01.infoset-value:used-at-own-nodes', 'at a node of the deviating player the search adds (+1) * (value of that node\'s own infoset) * reach and stops', g.where(0), 'recognised: %s' % ok)
+        if not ok and popped is None:
+            ctx.anchor_lost('C01.infoset-value', 'next_infoset_search: use of the infoset value at the deviating player\'s nodes', 'no work stack is popped in this function')
+        else:
+          ctx.verdict(ok, 'C01.infoset-value', 'C01.infoset-value:used-at-own-nodes', 'at a node of the deviating player the search adds (+1) * (value of that node\'s own infoset) * reach and stops', g.where(0), 'recognised: %s' % ok)
 
     # ---------------- (6b) no stale evaluation: a memo inside the profile must be dropped by every mutator
     rule = 'C01.no-stale-evaluation'
@@ -671,6 +681,8 @@ def run(ctx):
             from_one_call = len(srcs) == 1 and next(iter(srcs))[0] == 'call'
             if spliced is not None:
                 ctx.ok(rule, rule + ':info-fields', 'StrategiesInfo { util, regrets } are the utility and the regret pair of the one evaluation', f.where(bi), 'the evaluation is spliced into get_info: the fields are its result (forms decided by C01.regret-form)')
+            elif set(vals) == {'util', 'regrets'} and from_one_call and set(ret_roles.values()) != {'util', 'regrets'}:
+                ctx.anchor_lost(rule, 'get_info: which component of regret() is the utility / the regret pair', 'components recognised in regret(): %s' % ret_roles)
             elif set(vals) == {'util', 'regrets'} and (ret_roles or not from_one_call):
                 ok = from_one_call and len(comp['util']) == 1 and len(comp['regrets']) == 1 and ret_roles.get(comp['util'][0]) == 'util' and ret_roles.get(comp['regrets'][0]) == 'regrets'
                 ctx.verdict(ok, rule, rule + ':info-fields', 'StrategiesInfo { util, regrets } are the utility and the regret pair of the one regret() evaluation', f.where(bi), 'components: %s; result of %s(): %s' % (comp, ev_name, ret_roles))
